@@ -24,6 +24,15 @@ Leaves   == { [k |-> "Plain",       src |-> FALSE, dst |-> FALSE, cause |-> FALS
               [k |-> "Addr",        src |-> FALSE, dst |-> FALSE, cause |-> FALSE],
               [k |-> "Dns",         src |-> FALSE, dst |-> FALSE, cause |-> FALSE],
               [k |-> "Dns",         src |-> FALSE, dst |-> FALSE, cause |-> TRUE],   \* cause text embeds ip:port->ip:port
+              \* the resolver's free-form cause text embeds addresses under EVERY flag combination (not found / timeout /
+              \* temporary / none): "read udp ip:port->ip:53: connection refused" comes with IsTemporary only
+              [k |-> "DnsTemp",     src |-> FALSE, dst |-> FALSE, cause |-> TRUE],
+              [k |-> "DnsNoFlag",   src |-> FALSE, dst |-> FALSE, cause |-> TRUE],
+              [k |-> "DnsTempTimeout", src |-> FALSE, dst |-> FALSE, cause |-> TRUE],
+              \* sentinel network errors without an address of their own (net.ErrClosed, os.ErrDeadlineExceeded): harmless alone,
+              \* but errors.Is finds them through wrappers that DO carry addresses
+              [k |-> "ErrClosed",   src |-> FALSE, dst |-> FALSE, cause |-> FALSE],
+              [k |-> "Deadline",    src |-> FALSE, dst |-> FALSE, cause |-> FALSE],
               [k |-> "InvalidAddr", src |-> FALSE, dst |-> FALSE, cause |-> FALSE],
               [k |-> "UnknownNet",  src |-> FALSE, dst |-> FALSE, cause |-> FALSE] }
 Wrappers == { [k |-> "Op",   src |-> s, dst |-> d, cause |-> FALSE] : s, d \in BOOLEAN } \cup
@@ -37,11 +46,12 @@ WrapSeqs(n) == IF n = 0 THEN {<<>>}
                ELSE WrapSeqs(n - 1) \cup { <<w>> \o s : w \in Wrappers, s \in {t \in WrapSeqs(n - 1) : Len(t) = n - 1} }
 Chains == { ws \o <<lf>> : ws \in WrapSeqs(Depth), lf \in Leaves }
 
+DnsKinds == {"Dns", "DnsTemp", "DnsNoFlag", "DnsTempTimeout"}
 \* atoms are tagged with the position of the layer that carries them
 LayerAtoms(c, i) ==
     LET y == c[i] IN
     CASE y.k = "Addr"        -> {<<i, "addr">>}
-      [] y.k = "Dns"         -> {<<i, "name">>, <<i, "server">>} \cup (IF y.cause THEN {<<i, "cause">>} ELSE {})
+      [] y.k \in DnsKinds    -> {<<i, "name">>, <<i, "server">>} \cup (IF y.cause THEN {<<i, "cause">>} ELSE {})
       [] y.k = "InvalidAddr" -> {<<i, "addr">>}
       [] y.k = "UnknownNet"  -> {<<i, "net">>}
       [] y.k = "Op"          -> (IF y.src THEN {<<i, "src">>} ELSE {}) \cup (IF y.dst THEN {<<i, "dst">>} ELSE {})
@@ -50,7 +60,7 @@ LayerAtoms(c, i) ==
 \* what err.Error() prints for the sub-chain starting at layer i: everything
 AllFrom(c, i) == UNION { LayerAtoms(c, j) : j \in i..Len(c) }
 
-IsNetError(y) == y.k \in {"Addr", "Dns", "InvalidAddr", "UnknownNet", "Op", "Url"}
+IsNetError(y) == y.k \in {"Addr", "InvalidAddr", "UnknownNet", "Op", "Url", "ErrClosed", "Deadline"} \cup DnsKinds
 \* errors.As follows Unwrap: fmt %w, OpError and url.Error unwrap; leaves do not
 FirstNet(c, i) == LET S == { j \in i..Len(c) : IsNetError(c[j]) } IN
                   IF S = {} THEN 0 ELSE CHOOSE j \in S : \A x \in S : j <= x
@@ -60,7 +70,8 @@ ElideFrom(c, i) ==
     LET j == FirstNet(c, i) IN
     IF j = 0 THEN AllFrom(c, i)                      \* not a net.Error: text returned as is
     ELSE CASE c[j].k = "Addr"        -> {}
-           [] c[j].k = "Dns"         -> IF DevDnsCauseVerbatim THEN {<<j, "cause">>} \cap LayerAtoms(c, j) ELSE {}
+           [] c[j].k \in DnsKinds    -> IF DevDnsCauseVerbatim THEN {<<j, "cause">>} \cap LayerAtoms(c, j) ELSE {}
+           [] c[j].k \in {"ErrClosed", "Deadline"} -> {}    \* default branch: only the Go type is printed
            [] c[j].k = "InvalidAddr" -> {}
            [] c[j].k = "UnknownNet"  -> {}
            [] c[j].k = "Url"         -> {}          \* default branch: only the Go type is printed
